@@ -46,6 +46,10 @@ type Spec struct {
 	// Spell > 0: the source directory is passed to the archiver under another spelling of the same path
 	// (trailing slash, doubled slash, "/./", "/x/../")
 	Spell int `json:"spell,omitempty"`
+	// Resume > 0 (plain zip round trip): the extraction is resumable, and its resume file is 1 absent, 2 empty
+	// (an interruption inside the write of the progress number, a full disk), 3 zero bytes, 4 not a number,
+	// 5 white space: in every case nothing has been extracted yet and the whole tree is owed
+	Resume int `json:"resume,omitempty"`
 }
 
 func specTree(s Spec) h.Tree {
@@ -281,8 +285,16 @@ func check(s Spec) h.Result {
 		if err != nil {
 			return h.Failf("harness cannot read the archive it just wrote: %v", err)
 		}
+		resumeFrom := ""
+		if s.Resume > 0 {
+			resumeFrom = filepath.Join(d, "resume-file")
+			if s.Resume > 1 {
+				os.WriteFile(resumeFrom, [][]byte{nil, {0, 0, 0, 0}, []byte("3x"), []byte(" \n")}[s.Resume-2], 0o644)
+				cl = append(cl, "resume-file:present-but-holds-no-number")
+			}
+		}
 		res, err := archiver.ExtractZip(g, int64(len(zipb)), out, archiver.ExtractSettings{
-			Consumer: h.Quiet(), Concurrency: s.Workers,
+			Consumer: h.Quiet(), Concurrency: s.Workers, ResumeFrom: resumeFrom,
 			OnEntryDone: func(string) { g.completed() },
 		})
 		if err != nil {
@@ -398,6 +410,9 @@ var prop = h.Prop[Spec]{
 		}
 		if rapid.IntRange(0, 3).Draw(t, "respelled-source-dir") == 0 {
 			s.Spell = rapid.IntRange(1, 4).Draw(t, "spell")
+		}
+		if s.Format == "zip" && !s.Crash && rapid.IntRange(0, 3).Draw(t, "resumable") == 0 {
+			s.Resume = rapid.IntRange(1, 5).Draw(t, "resume-file")
 		}
 		if s.Format == "zip" && s.Workers >= 2 && rapid.Bool().Draw(t, "gate") {
 			s.Gate = &Gate{Entry: rapid.IntRange(0, 50).Draw(t, "gate-entry"), Need: rapid.IntRange(1, 8).Draw(t, "gate-need")}
